@@ -270,6 +270,8 @@ pub struct Sys {
     pub polls: u64,
     /// number of events logged when the system was last message-quiescent (nothing queued, nothing in flight)
     pub quiescent_at: usize,
+    /// the value of `quiescent_at` when the action being applied began
+    pub quiescent_before: usize,
     /// true: a failing script is killed by a signal instead of exiting non-zero
     snapshotted_spawns: usize,
     pub applied: Vec<Action>,
@@ -403,6 +405,7 @@ impl Sys {
             scratch,
             polls: 0,
             quiescent_at: 0,
+            quiescent_before: 0,
             snapshotted_spawns: 0,
             applied: vec![],
         };
@@ -698,6 +701,7 @@ impl Sys {
 
     pub fn apply(&mut self, act: &Action) {
         self.applied.push(act.clone());
+        self.quiescent_before = self.quiescent_at;
         match act {
             Action::Relay => self.relay_one(),
             Action::Recv(a) => self.pump(a, Slot::Inbox),
@@ -914,6 +918,22 @@ impl Sys {
         write!(s, "|{:?}", self.spawn_inputs).unwrap();
         let alive: Vec<&str> = self.tasks.iter().filter(|t| t.fut.is_some()).map(|t| t.name.as_str()).collect();
         write!(s, "|{:?}", alive).unwrap();
+        // the monitors that speak of "every message had been delivered since X" (C07, C11) compare the last
+        // message-quiescent point with events of one actor's own history (a failure, the consumption of an
+        // out-of-date notice): how many of those happened since that point is part of the state, so that the
+        // verdict on a transition is a function of the state it leaves
+        let mut since: Vec<String> = i.events[self.quiescent_at.min(i.events.len())..]
+            .iter()
+            .filter_map(|e| match e {
+                Ev::Consume { t, slot: Slot::Invalidation, .. } => Some(format!("c:{}", t)),
+                Ev::Consume { t, slot: Slot::Inbox, desc } if desc.starts_with("Invalidated") => Some(format!("c:{}", t)),
+                Ev::Finish { t, code, .. } if *code != 0 => Some(format!("f:{}", t)),
+                Ev::SpawnFail { t } => Some(format!("f:{}", t)),
+                _ => None,
+            })
+            .collect();
+        since.sort();
+        write!(s, "|{:?}", since).unwrap();
         let mut h1 = std::collections::hash_map::DefaultHasher::new();
         s.hash(&mut h1);
         let mut h2 = std::collections::hash_map::DefaultHasher::new();
